@@ -5,7 +5,7 @@ set -u
 d=$(realpath "$1"); name=$(basename $(dirname $d))-$(basename $d)
 wt=/tmp/vseed/$name
 rm -rf $wt; mkdir -p /tmp/vseed
-git -C /repo worktree add -q --detach $wt HEAD || exit 9
+git -C /repo worktree add -q --detach $wt ${SEED_BASE:-HEAD} || exit 9
 cd $wt
 res=""
 if ! git apply --check $d/patch.diff 2>/dev/null; then res="patch-does-not-apply"; fi
